@@ -118,7 +118,10 @@ def daemon_replay(rep, bfile, props, what, chunk=600, procs=8):
 
 COVERS = {
     "phc": dict(deltas="DeltasQ", bounds="BoundsR", reports="RepR", phc=True, polls=2, ticks=1, starts=1),
-    "nophc": dict(deltas="DeltasQ", bounds="BoundsR", reports="RepR", phc=False, polls=2, ticks=2, starts=2),
+    "nophc": dict(deltas="DeltasQ", bounds="BoundsR", reports="RepR", phc=False, polls=2, ticks=1, starts=2),
+    "nophc_t": dict(deltas="DeltasQ", bounds="BoundsR", reports="RepR", phc=False, polls=2, ticks=2, starts=2),
+    # three outcomes in a row (status must depend on the latest outcome only), no delays
+    "seq3": dict(deltas="DeltasQ", bounds="BoundsR", reports="RepR", phc=False, polls=3, ticks=0, starts=1),
 }
 MCQ = dict(deltas="DeltasQ", bounds="BoundsQ", reports="RepQ", phc=True, polls=3, ticks=2, starts=2)
 MCT = dict(deltas="DeltasT", bounds="BoundsQ", reports="RepQ", phc=True, polls=3, ticks=3, starts=2)
@@ -137,7 +140,7 @@ def daemon_common(pid, tier, seed, props, level="model_checking", extra=None):
     if r.violated:
         raise ToolError(f"Daemon.tla violates {r.violated} (no PHC)")
     drifts = []
-    for name in ("phc", "nophc"):
+    for name in (("phc", "nophc", "seq3") if tier == "quick" else ("phc", "nophc_t", "seq3")):
         b, n = daemon_cover(rep, name, COVERS[name])
         drifts += daemon_replay(rep, b, props, f"Daemon cover {name}")
     if extra:
@@ -244,6 +247,10 @@ def c07(tier, seed):
     for sig, vs in by_sig.items():
         v = vs[0]
         rep.violation(sig, f"bound published for (offset {v['human']['corr_s']} s, dispersion {v['human']['disp_s']} s, delay {v['human']['delay_s']} s, PHC {v['phc']}) is {v['human']['published_bound_ns']} ns: not |offset| + dispersion + delay/2 rounded up ({len(vs)} such reports among the first rejected)", {"kind": "bound", "reports": vs[:5]})
+    # the PHC term over sequences of reports: the bound of the latest synchronised report includes the PHC
+    # error bound of THAT report, whatever later reports carry
+    b, n = daemon_cover(rep, "phc", COVERS["phc"])
+    drifts = daemon_replay(rep, b, {"C07", "C08"}, "Daemon cover phc (PHC term across report sequences)")
     for x in res["phc_bad"][:3]:
         rep.violation("phc-not-added", f"published bound {x['published_bound']} != extract_bound {x['extract_bound']} + PHC {x['phc']}", {"kind": "bound", "case": x})
     for x in res["status_bad"][:3]:
